@@ -137,6 +137,40 @@ def base_packages(n):
     return out
 
 
+def _tagkind_catalogue():
+    """YAML nodes whose explicit tag disagrees with their kind (a mapping tagged !!seq, a sequence tagged !record, ...) and null / empty nodes
+    at every position where the model syntax expects a mapping, a sequence or a type."""
+    nodes = ["[a]", "{a: b}", "x", "~", "''", "[]", "{}", "[[a]]", "- a"]
+    tags = ["!!seq", "!!map", "!!str", "!!int", "!!null", "!record", "!enum", "!flags", "!protocol", "!generic", "!vector", "!array", "!map", "!union", "!stream", "!switch", "!"]
+    out = []
+    for t in tags:
+        for n in nodes:
+            v = "%s %s" % (t, n) if n != "- a" else "%s\n  - a" % t
+            out.append("X: %s\n" % v)                                                                   # definition
+            out.append("R: !record\n  fields:\n    f: %s\n" % v.replace("\n", "\n    "))                  # field type
+            out.append("P: !protocol\n  sequence:\n    s: %s\n" % v.replace("\n", "\n    "))             # step type
+    for t in ["!!seq", "!!map", "!!str", "!!null", "!"]:
+        for n in ["[a]", "{a: 1}", "x", "~"]:
+            v = "%s %s" % (t, n)
+            out.append("R: !record\n  fields: %s\n" % v)
+            out.append("R: !record\n  fields:\n    f: int\n  computedFields: %s\n" % v)
+            out.append("R: !record\n  fields:\n    f: int\n  computedFields:\n    c: %s\n" % v)
+            out.append("E: !enum\n  values: %s\n" % v)
+            out.append("E: !enum\n  base: %s\n  values: [a]\n" % v)
+            out.append("P: !protocol\n  sequence: %s\n" % v)
+            out.append("R: !record\n  fields:\n    f: !array {items: int, dimensions: %s}\n" % v)
+            out.append("R: !record\n  fields:\n    f: !vector {items: int, length: %s}\n" % v)
+            out.append("G<T>: !record\n  fields:\n    a: T\nR: !record\n  fields:\n    f: !generic {name: G, args: %s}\n" % v)
+            out.append("G<T>: !record\n  fields:\n    a: T\nR: !record\n  fields:\n    f: !generic {name: %s, args: [int]}\n" % v)
+            out.append("R: !record\n  fields:\n    f: !map {keys: %s, values: int}\n" % v)
+            out.append("R: !record\n  fields:\n    f: !union {a: %s, b: int}\n" % v)
+            out.append("R: !record\n  fields:\n    f: !union %s\n" % v)
+    return out
+
+
+TAGKIND = _tagkind_catalogue()
+
+
 def run(ctx):
     common.build_yardl()
     quick = ctx.tier == "quick"
@@ -168,6 +202,8 @@ def run(ctx):
         jobs.append(("nest", i))
     for i in range(14):
         jobs.append(("cycle", i))
+    for i in range(len(TAGKIND)):
+        jobs.append(("tagkind", i))
     # every catalogue expression, alone, on a record whose fields have known types (plus seeded compositions)
     n_expr = len(fuzzgen.EXPRS) + (60 if quick else 2000)
     for i in range(n_expr):
@@ -192,6 +228,10 @@ def run(ctx):
                 t = fuzzgen.mutate_text(t, r)
             files[target] = t.encode("utf-8", "surrogateescape") if isinstance(t, str) else t
             desc += " text mutation of %s" % target
+        elif kind == "tagkind":
+            files = {k: v for k, v in files.items() if not k.startswith(root_rel + "/") or k.endswith("_package.yml")}
+            files[root_rel + "/model.yml"] = TAGKIND[i]
+            desc += " tag/kind mismatch `%s`" % TAGKIND[i].replace("\n", " | ")[:90]
         elif kind == "arbitrary":
             files[root_rel + "/model.yml"] = fuzzgen.arbitrary_defs(r, r.randint(1, 8))
             if r.random() < 0.3:
